@@ -400,6 +400,44 @@ func accountScenario(kind string, pre, n int) vs.Scenario {
 	}
 }
 
+// rearm: a waiter is parked; the counter reaches zero and is immediately
+// raised again (Done; Add(1)) - possibly before the woken waiter has looked -
+// and then reaches zero for good. Every waiter is released in the end.
+func rearmScenario(k int) vs.Scenario {
+	return func() (func(), func(*vs.End) (string, string)) {
+		wg := &fun.WaitGroup{}
+		var num int
+		body := func() {
+			ctx := context.Background()
+			wg.Add(1)
+			fin := make(chan struct{}, k+1)
+			for i := 0; i < k; i++ {
+				go func() { wg.Wait(ctx); fin <- struct{}{} }()
+			}
+			go func() {
+				wg.Done()
+				wg.Add(1)
+				wg.Done()
+				fin <- struct{}{}
+			}()
+			for i := 0; i < k+1; i++ {
+				<-fin
+			}
+			num = wg.Num()
+		}
+		check := func(e *vs.End) (string, string) {
+			if t, d := stuckTag(e); t != "" {
+				return "rearm/waiter-not-released/" + t, d
+			}
+			if num != 0 {
+				return "counter-mismatch", fmt.Sprint(num)
+			}
+			return "", ""
+		}
+		return body, check
+	}
+}
+
 // observers: Num / IsDone agree with the completed Add/Done calls while other
 // threads wait.
 func observerScenario() vs.Scenario {
@@ -499,6 +537,9 @@ func build(tier string) ([]runner.Instance, time.Duration) {
 		}
 	}
 	add("observer", "observer", b, observerScenario())
+	for k := 1; k <= maxK; k++ {
+		add("rearm", fmt.Sprintf("rearm/k=%d", k), b, rearmScenario(k))
+	}
 	for pre := 0; pre <= 1; pre++ {
 		add("negative", fmt.Sprintf("negative/pre=%d", pre), b, negativeScenario(pre))
 	}
